@@ -27,7 +27,7 @@ def sh(cmd, **kw):
 
 def main():
     prop = sys.argv[1]
-    src = Path(sys.argv[2])
+    src = Path(sys.argv[2]).resolve()
     keep = sys.argv[sys.argv.index("--keep") + 1] if "--keep" in sys.argv else None
     tier = "thorough" if "--thorough" in sys.argv else "quick"
     wt = Path(f"/tmp/scratch/mut-{prop}-{os.getpid()}")
